@@ -1085,6 +1085,12 @@ pub fn generate(rng: &mut Rng, tier: Tier, emit: &mut dyn FnMut(String)) {
                 emit(case_line(&f, wf.cached ^ rng.chance(1, 6), 'n', None, &frame_bytes(wf.flags, wf.stream, wf.opcode, &body)));
             }
         }
+        // the error tail of the row iterator (items after the first failing row), capped
+        if i % 8 == 0 && wf.opcode == 0x08 && wf.flags == 0 && wf.body.out.len() > 12 {
+            let cut = rng.range(12, wf.body.out.len() as i64) as usize;
+            emit(format!("e 3000 {}", hex(&frame_bytes(0, wf.stream, 0x08, &wf.body.out[..cut]))));
+            emit(format!("e 3000 {}", hex(&frame)));
+        }
         // byte-level mutations: flip a byte, header mutations, frame flags flipped
         if i % 3 == 0 {
             let mut fr = frame.clone();
@@ -1262,6 +1268,27 @@ pub fn generate(rng: &mut Rng, tier: Tier, emit: &mut dyn FnMut(String)) {
                 b.int(if which == 1 { count } else { 0 });
                 emit(case_line(&feats, false, 'n', None, &frame_bytes(0, 0, 8, &b.out)));
             }
+        }
+    }
+
+    // rows_count far beyond the rows present (1 column, then 0 / 1 / 2 complete rows and a partial one)
+    for rc in [0i32, 1, 2, 3, 1000, 100000, i32::MAX] {
+        for present in 0..3usize {
+            let mut b = B::default();
+            b.int(2);
+            b.int(1);
+            b.int(1);
+            b.string(b"k");
+            b.string(b"t");
+            b.string(b"c");
+            b.short(9);
+            b.int(rc);
+            for r in 0..present {
+                b.bytes(&[0, 0, 0, r as u8]);
+            }
+            emit(format!("e 3000 {}", hex(&frame_bytes(0, 0, 0x08, &b.out))));
+            b.raw(&[0, 0]);
+            emit(format!("e 3000 {}", hex(&frame_bytes(0, 0, 0x08, &b.out))));
         }
     }
 
